@@ -162,9 +162,10 @@ _reg("C04", c04.run,
                 "field table. Physical string encodings, chunking, compression are invisible to the model's reader by "
                 "construction; that the real reader agrees is established by the correspondence run.",
      level_note="Lean kernel; hand-written models of to_dict/from_dict/write/read and of the h5py contract (create_dataset conversions, item[()], link names, iteration order), validated against the real library and real files on every run.")
-_reg("C05", c05.run, module="NirVerif.Properties.C05Stable",
+_reg("C05", c05.run, translator=("T1", "T9", "T17"), module="NirVerif.Properties.C05Generated",
      theorems=["NirVerif.C05.affine_linear", "NirVerif.C05.elementwise1", "NirVerif.C05.neuron",
-               "NirVerif.C05.io_ndarray", "NirVerif.C05.io_sequence", "NirVerif.C05.stable_dict", "NirVerif.C05.stable_file"],
+               "NirVerif.C05.io_ndarray", "NirVerif.C05.io_sequence", "NirVerif.C05.stable_dict", "NirVerif.C05.stable_file",
+               "NirVerif.C05.matvec_generated", "NirVerif.C05.elementwise_generated", "NirVerif.C05.elementwise_source_generated"],
      rule="Every element-wise primitive x rank 0..3 (thorough 0..4) x axis lengths 1..3 with all 16 dtypes cycled; "
           "Affine/Linear weights of rank 2..5; Input/Output shapes as ndarray(int64/int32)/list/tuple/dict; each node "
           "also taken through a dict and a file round trip; oracle = numpy evaluating the documented equation.",
